@@ -87,8 +87,13 @@ class RealCase:
         if k == "end":
             pat = P
             for el in j["stack"]:
-                pat = pat[self.pred(el)]
+                if el["p"] == "garg":     # P[...].generic_arg(pos, pred)
+                    pat = pat.generic_arg(el["pos"], self._as_inner_pred(self.pred(el["q"])))
+                else:
+                    pat = pat[self.pred(el)]
             return pat
+        if k == "garg":                   # P.generic_arg(pos, pred): the position whatever the parent is
+            return P.generic_arg(j["pos"], self._as_inner_pred(self.pred(j["q"])))
         if k == "or":
             ps = [self._as_pattern(self.pred(p)) for p in j["ps"]]
             out = ps[0]
@@ -98,6 +103,12 @@ class RealCase:
         if k == "not":
             return ~self._as_pattern(self.pred(j["q"]))
         raise ValueError(k)
+
+    @staticmethod
+    def _as_inner_pred(p):
+        """a predicate usable *inside* a pattern element (a LocStackPattern is refused there)"""
+        from adaptix._internal.provider.loc_stack_filtering import LocStackPattern
+        return p.build_loc_stack_checker() if isinstance(p, LocStackPattern) else p
 
     def _as_pattern(self, p):
         from adaptix import P
@@ -111,6 +122,14 @@ class RealCase:
             return LEAF_PY[o["n"]]
         if o["o"] == "cls":
             return self.u.real[o["c"]]
+        if o["o"] == "dict":
+            return dict
+        if o["o"] == "union":
+            import typing
+            return typing.Union
+        if o["o"] == "iter" and o["k"] in ("list", "tuple", "deque"):      # the concrete origins (ExactOriginLSC)
+            import collections
+            return {"list": list, "tuple": tuple, "deque": collections.deque}[o["k"]]
         raise ValueError(o)
 
     # providers ----------------------------------------------------------------
@@ -428,6 +447,9 @@ class Spec:
             return True
         if k == "origin":
             return self.origin_of(last["ty"]) == p["o"]
+        if k == "garg":       # P.generic_arg(pos, q) = GenericParamLSC(pos) & q: the last location is the pos-th
+            #                   type argument of its parent (dict key 0 / value 1, element 0, Optional's type 0)
+            return last["kind"] == "gparam" and last["pos"] == p["pos"] and self.pred(p["q"], stack)
         if k == "end":
             els = p["stack"]
             if len(stack) < len(els):
@@ -542,6 +564,13 @@ class Spec:
         if f is not None:
             self.stats["val-user-coercer:" + ("falsy-arg" if self.falsy(value) else "none-arg" if value is None
                                               else "truthy-arg")] += 1
+            chosen = next(p for p in self.recipe if p["k"] == "coercer" and p["f"] == f)
+            if "garg" in repr(chosen["src"]) or "garg" in repr(chosen["dst"]):
+                self.stats["val-user-coercer:chosen-by-generic-position"] += 1
+            matching = [p["f"] for p in self.recipe if p["k"] == "coercer" and self.pred(p["src"], src_stack)
+                        and self.pred(p["dst"], dst_stack)]
+            if len(matching) > 1:
+                self.stats["val-user-coercer:shadows-a-later-matching-coercer"] += 1
             return App(f, [value], [])
         if self.is_model(s) and self.is_model(d):
             if self.tagged_as_is and self.below_same_tagged_hint(src_stack[-1:], dst_stack[-1:]):
@@ -557,6 +586,13 @@ class Spec:
                            for x in value)
         if s["t"] == "dict" and d["t"] == "dict":
             self.stats["val-dict:" + ("empty" if self.falsy(value) else "non-empty")] += 1
+            if value and (s["k"], d["k"]) == (s["v"], d["v"]):
+                # key and value carry the same pair of types; which recipe entry serves each position is still
+                # decided per position (by this transcription's own evaluation of the predicates)
+                fk = self.user_coercer(src_stack + [gp(s["k"], 0)], dst_stack + [gp(d["k"], 0)])
+                fv = self.user_coercer(src_stack + [gp(s["v"], 1)], dst_stack + [gp(d["v"], 1)])
+                self.stats["val-dict-equal-key-and-value-pair:" +
+                           ("same-coercer-at-both-positions" if fk == fv else "different-coercers-by-position")] += 1
             return {self.coerce(k, src_stack + [gp(s["k"], 0)], dst_stack + [gp(d["k"], 0)], pvals):
                     self.coerce(x, src_stack + [gp(s["v"], 1)], dst_stack + [gp(d["v"], 1)], pvals)
                     for k, x in value.items()}
